@@ -193,6 +193,30 @@ def run(ck):
                         return "refilled" if "dict.clear" in ops_[:first_fill] else "merged"
                     return None
 
+                # what is restored is the file's dictionary: a dictionary that (also) holds entries under names fixed in the code
+                # (the defaults X, Y, Z put back in) has entries the file need not have
+                for p_ in paths:
+                    if p_.outcome != "return":
+                        continue
+                    ud_ = p_.interp.get_attr(p_.value[0], "unitary_dict", None)
+                    if not isinstance(ud_, VDict):
+                        continue
+                    lits = []
+                    if ud_.obj.items:
+                        lits = [k_ for k_ in ud_.obj.items if isinstance(k_, str)]
+                    src_ = getattr(ud_.obj, "source", None) or getattr(ud_.obj, "comp_src", None)
+                    for _k in range(3):  # through .items() / .keys() views and iterators of a dictionary
+                        if isinstance(src_, VDict) or src_ is None:
+                            break
+                        src_ = getattr(src_, "recv", None) or getattr(src_, "source", None) or getattr(src_, "of_dict", None)
+                    if not lits and isinstance(src_, VDict) and src_.obj.items:
+                        lits = [k_ for k_ in src_.obj.items if isinstance(k_, str)]
+                    fixed = any(e.kind == "setattr" and e.detail == "unitary_dict" for e in p_.effects) and bool(lits)
+                    if fixed:
+                        ck.violation("C11.R3", cls + ".load:unitary_dict restored as saved", lsite,
+                                     "after load the model's unitary dictionary holds entries under names fixed in the code (%s): a saved dictionary without them does not come back as it was saved" % sorted(lits)[:4],
+                                     key="C11.R3|%s.load|unitary_dict gains entries" % cls)
+                        break
                 kinds = {id(p): _restored(p) for p in paths if p.outcome == "return"}
                 restores = [p for p in paths if p.outcome == "return" and kinds[id(p)] in ("assigned", "refilled")]
                 merged = [p for p in paths if p.outcome == "return" and kinds[id(p)] == "merged"]
